@@ -298,6 +298,9 @@ func (g *G) design() {
 			g.userType()
 		}
 	}
+	if nestedRequiredNameClash(d, false) && g.avoid("C08-nested-result-type-requiredness-read-from-nested-type") {
+		nestedRequiredNameClash(d, true)
+	}
 	if g.p.Security {
 		g.schemes()
 	}
